@@ -39,6 +39,9 @@ def _k5_conformance(res, ctx):
     res.add(o)
 
 
+CONFORMANCE = {"_date": [{"year": 2022, "month": 1, "day": -2}, {"year": 99, "month": 14, "day": 31}, {"year": 10000, "month": 1, "day": 1}, {"year": 2024, "month": 0, "day": 0}, {"year": 2023, "month": -11, "day": 400}], "_datedif/M": [{"date_start": {"$dt": [2019, 12, 8, 0, 0, 0, 0]}, "date_end": {"$dt": [2020, 12, 6, 0, 0, 0, 0]}, "mode": "M"}], "_datedif/Y": [{"date_start": {"$dt": [2019, 1, 1, 0, 0, 0, 0]}, "date_end": {"$dt": [2020, 12, 31, 0, 0, 0, 0]}, "mode": "Y"}], "_datedif/YM": [{"date_start": {"$dt": [2019, 12, 8, 0, 0, 0, 0]}, "date_end": {"$dt": [2020, 12, 6, 0, 0, 0, 0]}, "mode": "YM"}], "_datedif/D": [{"date_start": {"$dt": [2020, 2, 28, 0, 0, 0, 0]}, "date_end": {"$dt": [2020, 3, 1, 0, 0, 0, 0]}, "mode": "D"}, {"date_start": {"$dt": [2020, 3, 1, 0, 0, 0, 0]}, "date_end": {"$dt": [2020, 2, 1, 0, 0, 0, 0]}, "mode": "D"}], "_edate": [{"start_date": {"$dt": [2023, 12, 31, 0, 0, 0, 0]}, "months": 2}, {"start_date": {"$dt": [2024, 1, 31, 0, 0, 0, 0]}, "months": 13}, {"start_date": {"$dt": [2024, 3, 31, 6, 0, 0, 0]}, "months": -1}], "_eomonth": [{"start_date": {"$dt": [2023, 1, 15, 0, 0, 0, 0]}, "months": 1}, {"start_date": {"$dt": [2060, 1, 15, 0, 0, 0, 0]}, "months": -11}], "_network_days/forward": [{"date_start": {"$dt": [2024, 1, 1, 0, 0, 0, 0]}, "date_end": {"$dt": [2024, 1, 7, 0, 0, 0, 0]}, "holidays": None}], "_network_days/reversed": [{"date_start": {"$dt": [2024, 1, 7, 0, 0, 0, 0]}, "date_end": {"$dt": [2024, 1, 1, 0, 0, 0, 0]}, "holidays": None}]}
+
+
 def run(ctx):
     res = PropResult('C15')
     K.k1_block(res, ctx, MOD, K1, 'C15.')
@@ -46,6 +49,7 @@ def run(ctx):
     schema.run_table(res, 'C15', TABLE)
     K.canary_contract(res, MOD, '_eomonth', 'last_day_of_target_month',
                       'is_datetime(result) and tord(result) == fom(mi(tord(start_date)) + I(months)) + 27')
+    K.conformance(res, 'contracts.rt', CONFORMANCE)
     K.monitor_if_present(res, ctx, 'mon_c15')
     res.assumptions += ['A-EXT: K5 calendar contracts (conformance-checked every run)', 'results stay inside years 1..9999',
                         'month offsets are ints (fractional offsets are truncated by trunc(): bounded monitor)',
